@@ -6,45 +6,34 @@ SUITE = "schemacode"
 LEAN_TARGETS = ["TypedpyModel.Props.C09", "TypedpyModel.Audit.C09"]
 AUDIT = "C09"
 THEOREMS = [
-    "Typedpy.C09.wrap_val_safe",
-    "Typedpy.C09.description_safe",
-    "Typedpy.C09.pattern_site_partial",
-    "Typedpy.C09.default_site_partial",
-    "Typedpy.C09.description_site_partial",
     "Typedpy.C09.repr_safe",
     "Typedpy.C09.reprSites_faithful",
     "Typedpy.C09.reprSitesL_faithful",
     "Typedpy.C09.reprSitesKV_faithful",
     "Typedpy.C09.enum_site_faithful",
     "Typedpy.C09.required_site_faithful",
-    "Typedpy.C09.default_repr_site_faithful",
-    "Typedpy.C09.unescaped_pattern_quote",
-    "Typedpy.C09.unescaped_pattern_backslash",
-    "Typedpy.C09.unescaped_pattern_trailing_backslash",
-    "Typedpy.C09.unescaped_pattern_newline",
-    "Typedpy.C09.unescaped_default_quote",
-    "Typedpy.C09.unescaped_default_backslash_n",
-    "Typedpy.C09.unescaped_default_newline",
-    "Typedpy.C09.unescaped_description_triple",
-    "Typedpy.C09.unescaped_description_trailing_backslash",
-    "Typedpy.C09.unescaped_description_escape",
-    "Typedpy.C09.wrap_val_statement_false",
+    "Typedpy.C09.pattern_site_faithful",
+    "Typedpy.C09.default_site_faithful",
+    "Typedpy.C09.description_safe",
+    "Typedpy.C09.description_site_faithful",
+    "Typedpy.C09.unescaped_description_nul",
     "Typedpy.C09.description_statement_false",
-    "Typedpy.C09.enum_repr_examples",
+    "Typedpy.C09.defaultsSites_faithful",
+    "Typedpy.C09.all_sites_faithful",
+    "Typedpy.C09.all_sites_faithfulL",
+    "Typedpy.C09.all_sites_faithfulP",
+    "Typedpy.C09.hostile_examples",
     "Typedpy.C09.schemaToDecl_inverse",
     "Typedpy.C09.schemaToClass_inverse",
     "Typedpy.C09.canonReq_mem",
     "Typedpy.C09.rho0_classes",
-    "Typedpy.C09.roundtrip_counterexample_array_size",
     "Typedpy.C09.roundtrip_counterexample_default_required",
     "Typedpy.C09.roundtrip_counterexample_required_absent",
     "Typedpy.C09.roundtrip_counterexample_single_field",
     "Typedpy.C09.roundtrip_statement_false",
     "Typedpy.C09.required_not_mutated",
-    "Typedpy.C09.required_mutated_counterexample",
-    "Typedpy.C09.required_not_mutated_statement_false",
+    "Typedpy.C09.emitted_required_example",
     "Typedpy.C09.roundtrip_example",
-    "Typedpy.C09.wrap_val_example",
 ]
 RULE = ("schemas from a recursive generator over the keyword set (type, properties, required, additionalProperties, "
         "items as schema/list, uniqueItems, additionalItems, min/max*, multiplesOf, pattern, enum, allOf/anyOf/oneOf/not, "
@@ -67,7 +56,7 @@ ASSUMPTIONS = [
 
 
 def cases(rng, tier):
-    return S.gen_cases(rng, tier, 1500 if tier == "quick" else 12000)
+    return S.gen_cases(rng, tier, 3000 if tier == "quick" else 30000)
 
 
 def search_cases(rng, tier):
